@@ -1058,7 +1058,7 @@ def ev_symv(c, desc, seed, tier):
                             c.count('dense-side-differs-from-model:symv-raises')
 
 
-def ev_gemm(c, m, n, k, tc, combo, tA, tB, seed, tier, npat=None):
+def ev_gemm(c, m, n, k, tc, combo, tA, tB, seed, tier, npat=None, ab=None, partials=None):
     """combo = (sA, sB, sC) ; loops over operand patterns, alpha, beta, partial."""
     from cvxopt import base
     sA_, sB_, sC_ = combo
@@ -1084,10 +1084,12 @@ def ev_gemm(c, m, n, k, tc, combo, tA, tB, seed, tier, npat=None):
                     bflag = '+Bemptycol'
             for c_ in pC:
                 Cm, cp = model_of([m, n, tc, c_], seed, 6)
-                for partial in ((False, True) if sC_ else (False,)):
+                for partial in (partials or ((False, True) if sC_ else (False,))):
                     K = 'C16:gemm:%s:%s:transA=%s:partial=%s%s' % (tc, cname, tA, partial, bflag)
                     for al in AB:
                         for be in AB:
+                            if ab is not None and (al, be) != tuple(ab):
+                                continue
                             c.n += 1
                             sub = {'A': [shA[0], shA[1], tc, a_], 'B': [shB[0], shB[1], tc, b_], 'C': [m, n, tc, c_],
                                    'alpha': al, 'beta': be}
@@ -1537,6 +1539,7 @@ def chunks(L, k):
 def cases(tier, seed, flavour):
     th = tier == 'thorough'
     red = flavour == 'asan' and not th            # reduced domain on the sanitizer build of the quick tier
+    san = flavour == 'asan'
     # ---- 0. fixed small / empty matrices: construction (safe first case for the determinism gate)
     yield {'p': 'ctor', 'descs': [[f[0], f[1], tc, f[2]] for f in FIXED for tc in 'dz']}
     # ---- 1. single-operation cases that kill the interpreter / read outside the matrix on the unchanged tree
@@ -1550,6 +1553,10 @@ def cases(tier, seed, flavour):
         for cs in (['l', [-1]], ['l', [-2]], ['m', [-1]], ['l', [0, -1]]):
             yield {'p': 'risky', 'op': 'get', 'A': [2, 3, 'd', '202122'], 'specs': [rs, cs],
                    'ck': 'getitem:slice,%s:cneg' % KIND[cs[0]]}
+    for spec, vk in ((['l', []], 'num'), (['l', []], 'dfit'), (['l', []], 'sfit'), (['m', []], 'num'), (['s', 0, 0, None], 'num')):
+        yield {'p': 'risky', 'op': 'set', 'A': [2, 3, 'd', '202120'], 'specs': [spec], 'vk': vk,
+               'ck': 'setitem:%s:empty-index' % KIND[spec[0]]}
+    yield {'p': 'risky', 'op': 'gemm1', 'ck': 'gemm:d:sparse,sparse,sparse:transA=C:partial=True'}
     for combo in ((1, 1), (1, 0), (0, 1)):
         yield {'p': 'risky', 'op': 'syrkz', 'combo': list(combo), 'ck': 'syrk:z:sparse-operand'}
     yield {'p': 'risky', 'op': 'syrk-k0', 'ck': 'syrk:d:dense,sparse:k=0'}
@@ -1559,7 +1566,7 @@ def cases(tier, seed, flavour):
             d = [f[0], f[1], tc, f[2]]
             yield {'p': 'unary', 'descs': [d]}
             yield {'p': 'binary', 'A': [d], 'tcb': 'dz', 'tier': 'thorough'}
-            yield {'p': 'index', 'A': d, 'level': 'small', 'vks': list(VK_ALL), 'get': True}
+            yield {'skip_empty1': san, 'p': 'index', 'A': d, 'level': 'small', 'vks': list(VK_ALL), 'get': True}
             yield {'p': 'gemv', 'descs': [d]}
             if f[0] == f[1] and tc == 'd':
                 yield {'p': 'symv', 'descs': [d]}
@@ -1590,33 +1597,33 @@ def cases(tier, seed, flavour):
                 if red and bi % 2:
                     continue
                 for p in blk:
-                    yield {'p': 'index', 'A': [m, n, tc, p], 'level': 'tiny', 'vks': list(VK_QUICK), 'get': True}
+                    yield {'skip_empty1': san, 'p': 'index', 'A': [m, n, tc, p], 'level': 'tiny', 'vks': list(VK_QUICK), 'get': True}
             if th:
                 for p in P2:
-                    yield {'p': 'index', 'A': [m, n, tc, p], 'level': 'small', 'vks': list(VK_ALL), 'get': True}
+                    yield {'skip_empty1': san, 'p': 'index', 'A': [m, n, tc, p], 'level': 'small', 'vks': list(VK_ALL), 'get': True}
     # ---- 6. selected matrices x full index-expression domains
     sel = SEL[:1] if red else (SEL if th else SEL[:2])
     for d in sel:
         for k in 'islm':
-            yield {'p': 'index1', 'A': d, 'kind': k, 'level': 'full', 'vks': list(VK_ALL)}
+            yield {'skip_empty1': san, 'p': 'index1', 'A': d, 'kind': k, 'level': 'full', 'vks': list(VK_ALL)}
         for rk in 'islm':
             for ck in 'islm':
-                yield {'p': 'index2', 'A': d, 'rk': rk, 'ck': ck, 'rl': 'mid', 'cl': 'mid', 'vks': [], 'get': True}
+                yield {'skip_empty1': san, 'p': 'index2', 'A': d, 'rk': rk, 'ck': ck, 'rl': 'mid', 'cl': 'mid', 'vks': [], 'get': True}
                 for vk in (VK_ALL if th else VK_MID):
-                    yield {'p': 'index2', 'A': d, 'rk': rk, 'ck': ck, 'rl': 'mid', 'cl': 'mid', 'vks': [vk], 'get': False}
+                    yield {'skip_empty1': san, 'p': 'index2', 'A': d, 'rk': rk, 'ck': ck, 'rl': 'mid', 'cl': 'mid', 'vks': [vk], 'get': False}
         for lk in 'lm':
             for ok in 'islm':
                 for vks, get in (([], True), (['num'], False), (['dfit'], False), (['sfit'], False)):
-                    yield {'p': 'index2', 'A': d, 'rk': lk, 'ck': ok, 'rl': 'full', 'cl': 'small', 'vks': vks, 'get': get}
-                    yield {'p': 'index2', 'A': d, 'rk': ok, 'ck': lk, 'rl': 'small', 'cl': 'full', 'vks': vks, 'get': get}
+                    yield {'skip_empty1': san, 'p': 'index2', 'A': d, 'rk': lk, 'ck': ok, 'rl': 'full', 'cl': 'small', 'vks': vks, 'get': get}
+                    yield {'skip_empty1': san, 'p': 'index2', 'A': d, 'rk': ok, 'ck': lk, 'rl': 'small', 'cl': 'full', 'vks': vks, 'get': get}
     if th:
         for d in SEL[:2]:
             for rk in 'sl':
                 for ck in 'sl':
                     for part in range(8):
-                        yield {'p': 'index2', 'A': d, 'rk': rk, 'ck': ck, 'rl': 'full', 'cl': 'full', 'vks': [], 'get': True,
+                        yield {'skip_empty1': san, 'p': 'index2', 'A': d, 'rk': rk, 'ck': ck, 'rl': 'full', 'cl': 'full', 'vks': [], 'get': True,
                                'part': [part, 8]}
-                        yield {'p': 'index2', 'A': d, 'rk': rk, 'ck': ck, 'rl': 'full', 'cl': 'full', 'vks': ['num'], 'get': False,
+                        yield {'skip_empty1': san, 'p': 'index2', 'A': d, 'rk': rk, 'ck': ck, 'rl': 'full', 'cl': 'full', 'vks': ['num'], 'get': False,
                                'part': [part, 8]}
     # ---- 7. base.axpy / gemv / symv / gemm / syrk
     for (m, n) in SHAPES:
@@ -1638,7 +1645,12 @@ def cases(tier, seed, flavour):
                     continue
                 for tA in 'NTC':
                     for tB in 'NTC':
-                        yield {'p': 'gemm', 'm': m, 'n': n, 'k': k, 'tc': tc, 'combo': list(combo), 'tA': tA, 'tB': tB, 'npat': npat}
+                        g = {'p': 'gemm', 'm': m, 'n': n, 'k': k, 'tc': tc, 'combo': list(combo), 'tA': tA, 'tB': tB, 'npat': npat}
+                        if san and tc == 'd' and combo == (1, 1, 1) and tA == 'C' and k != m:
+                            # partial=True reads outside A on the unchanged tree (one sanitizer report per call):
+                            # on the asan flavour only the single-operation case above exercises it
+                            g['partials'] = [False]
+                        yield g
     for (n, k) in ((2, 3), (3, 2), (1, 2), (3, 1), (2, 0), (0, 2)):
         for combo in ((1, 1), (1, 0), (0, 1)):
             if k == 0 and combo == (0, 1):
@@ -1687,7 +1699,7 @@ def run(case):
     return c.result(**extra)
 
 
-def _index_eval(c, d, seed, pairs1, pairs2, vks, get):
+def _index_eval(c, d, seed, pairs1, pairs2, vks, get, skip_empty1=False):
     Am, pat = model_of(d, seed)
     A = sp_of(Am, pat)
     sA = snap(A)
@@ -1702,6 +1714,9 @@ def _index_eval(c, d, seed, pairs1, pairs2, vks, get):
             ev_get(c, A, sA, Am, Ad, specs)
         if len(specs) == 1 and specs[0][0] != 'i' and d[0] == 0:
             continue            # kills the interpreter on the unchanged tree: single-operation cases only
+        if skip_empty1 and len(specs) == 1 and 'empty' in R.flags1(specs[0], d[0] * d[1]):
+            continue            # asan flavour: every such assignment is an (expensive) sanitizer report on the
+                                # unchanged tree; exercised there by single-operation cases only
         for vk in vks:
             ev_set(c, A, Am, pat, specs, vk, seed)
     if snap(A) != sA:
@@ -1735,11 +1750,11 @@ def _run(c, case, seed, extra):
             dom = lambda k, dim, one=False: dom_kind(k, dim, lv, one)
         p1 = [(s,) for k in 'islm' for s in dom(k, m * n, True)]
         p2 = [(s1, s2) for k1 in 'islm' for k2 in 'islm' for s1 in dom(k1, m) for s2 in dom(k2, n)]
-        _index_eval(c, d, seed, p1, p2, case['vks'], case['get'])
+        _index_eval(c, d, seed, p1, p2, case['vks'], case['get'], case.get('skip_empty1', False))
     elif p == 'index1':
         d = case['A']
         p1 = [(s,) for s in dom_kind(case['kind'], d[0] * d[1], case['level'], True)]
-        _index_eval(c, d, seed, p1, [], case['vks'], True)
+        _index_eval(c, d, seed, p1, [], case['vks'], True, case.get('skip_empty1', False))
     elif p == 'index2':
         d = case['A']
         R1 = dom_kind(case['rk'], d[0], case['rl'])
@@ -1748,7 +1763,7 @@ def _run(c, case, seed, extra):
         if case.get('part'):
             k, nk = case['part']
             p2 = ((s1, s2) for i, s1 in enumerate(R1) if i % nk == k for s2 in C1)
-        _index_eval(c, d, seed, [], p2, case['vks'], case['get'])
+        _index_eval(c, d, seed, [], p2, case['vks'], case['get'], case.get('skip_empty1', False))
     elif p == 'axpy':
         m, n = case['m'], case['n']
         pys = case['py'] if case['py'] is not None else all_patterns(m * n)
@@ -1763,7 +1778,7 @@ def _run(c, case, seed, extra):
             ev_symv(c, d, seed, 'thorough')
     elif p == 'gemm':
         ev_gemm(c, case['m'], case['n'], case['k'], case['tc'], tuple(case['combo']), case['tA'], case['tB'], seed,
-                'thorough', case['npat'])
+                'thorough', case['npat'], partials=case.get('partials'))
     elif p == 'syrk':
         ev_syrk(c, case['n'], case['k'], case['tc'], tuple(case['combo']), case['uplo'], case['t'], seed, 'thorough', case['npat'])
     elif p == 'hist':
@@ -1786,6 +1801,8 @@ def _run_risky(c, case, seed):
         Am, pat = model_of(d, seed)
         A = sp_of(Am, pat)
         ev_get(c, A, snap(A), Am, dn_of(Am), tuple(case['specs']))
+    elif op == 'gemm1':
+        ev_gemm(c, 1, 2, 3, 'd', (1, 1, 1), 'C', 'N', seed, 'quick', 2, ab=(1, 0), partials=[True])
     elif op == 'syrkz':
         ev_syrk(c, 2, 3, 'z', tuple(case['combo']), 'L', 'N', seed, 'quick', 2)
     elif op == 'syrk-k0':
